@@ -23,7 +23,7 @@ c_decl {
 }
 c_code {
 static char seen[8][12][4];
-static const char *STATE_NAME[] = {"NoDebugger", "AttachedIdle", "TestRunning", "TestPaused", "TestFinished"};
+static const char *STATE_NAME[] = {"NoDebugger", "AttachedIdle", "TestRunning", "TestPaused", "TestFinished", "TestLaunched"};
 static const char *ORDER_NAME[] = {"shutdown,exit", "close-stdin", "disconnect,shutdown,exit", "shutdown,disconnect,exit",
                                    "shutdown,exit,disconnect", "close-stdin,close-tcp", "close-tcp,shutdown,exit",
                                    "shutdown,connect,exit", "shutdown,exit,connect", "close-stdin,connect",
@@ -144,7 +144,7 @@ proctype DebugThread() {
 proctype Client() {
     /* choose the history */
     if
-    :: st = 0 :: st = 1 :: st = 2 :: st = 3 :: st = 4
+    :: st = 0 :: st = 1 :: st = 2 :: st = 3 :: st = 4 :: st = 5
     fi;
     if
     :: ord = 0 :: ord = 1
